@@ -67,7 +67,7 @@ Section Undef.
         destruct (name_mem n (c_ignored c)) eqn:Ei; [reflexivity|]. cbn [orb].
         destruct su; [reflexivity|]. cbn [orb].
         destruct (name_mem n (c_luain c)) eqn:El; [reflexivity|].
-        rewrite Ei, El in Hle1. cbn [orb negb] in Hle1. rewrite andb_true_r in Hle1.
+        cbn [orb negb] in Hle1. rewrite andb_true_r in Hle1.
         destruct (flv =? 0) eqn:Eflv.
         * destruct (name_mem n sofar) eqn:Es; [reflexivity|].
           cbn [negb andb] in Hle1.
@@ -113,14 +113,14 @@ Proof.
     rewrite orb_assoc. f_equal.
     destruct a as [| |v|n l flv su ci|n l flv slv rhs]; cbn [step_gmap step_log flat_map existsb app];
       try (rewrite orb_false_r; reflexivity).
-    + destruct (find_st (hit true n l) st); cbn [binding_of flat_map existsb app]; rewrite orb_false_r; reflexivity.
-    + destruct (find_st (hit true n l) st) as [v|]; cbn [binding_of flat_map existsb app].
+    destruct (find_st (hit true n l) st) as [v|]; cbn [binding_of flat_map existsb app].
       * rewrite orb_false_r. reflexivity.
-      * rewrite orb_false_r.
-        assert (Hadd : name_mem m (map fst ((n, (flv, slv, l)) :: gm)) = name_mem m (map fst gm) || name_eqb m n).
-        { cbn. apply orb_comm. }
+      * assert (Hadd : name_mem m (map fst ((n, (flv, slv, l)) :: gm))
+                       = name_mem m (map fst gm) || (name_eqb m n || false)).
+        { cbn. rewrite orb_false_r. apply orb_comm. }
         destruct (ghead n gm) as [x|] eqn:Eg.
         -- destruct (glimit_found x flv slv l); [|exact Hadd].
+           rewrite orb_false_r.
            destruct (name_eqb m n) eqn:E; [|rewrite orb_false_r; reflexivity].
            apply name_eqb_eq in E. subst m. rewrite ghead_names, Eg. reflexivity.
         -- exact Hadd.
